@@ -3,6 +3,11 @@
 `is_sentence_opaque` are interpreted from source; the frame dictionaries are ghost maps recorded on the model.
 """
 from __future__ import annotations
+
+def _new_private(model, name):
+    "a private helper the model has no contract for (e.g. extracted by a refactoring): interpreted from source"
+    from pyvc.interp import is_private_name
+    return is_private_name(name) and name not in getattr(model, 'NO_INLINE', ())
 import types
 from pyvc import source
 from pyvc.interp import SymVal, Outside, PyExc, Contract, BoundSource, GenList
@@ -100,7 +105,7 @@ class ModelObj(SymVal):
         for c in self.cls.__mro__:
             if name in c.__dict__:
                 v = c.__dict__[name]
-                if isinstance(v, types.FunctionType) and name in self.INLINE:
+                if isinstance(v, types.FunctionType) and (name in self.INLINE or _new_private(self, name)):
                     fi = source.of_function(v)
                     self.inlined[fi.key] = fi
                     return BoundSource(fi, v, c, self)
